@@ -71,6 +71,33 @@ def recipe(c: Check):
     cc = c.cov.get("coq_counters", {}).get("drain", {})
     if st and cc.get("NDRAIN", 0) < 2:
         c.broken.append(dict(kind="sanity", name="drain driver did not complete both directions", detail=str(cc)))
+    # F-C01c (recorded): evaluated in Coq over TODAY's translated yamux configuration.  The known-finding key stands
+    # for exactly the recorded pair (StreamCloseTimeout 300 000 ms, window 6 291 456 B, i.e. truncation below 20 972 B/s):
+    # any other pair that admits a truncating drain rate is reported under its own key (a violation), and a
+    # configuration the model does not recognise already breaks C01_yamux_close_config.
+    F01C = "tunnel-close:yamux-stream-close-timeout-slow-receiver"
+    if st and cc.get("YAMUXCFGOK") == 1:
+        pair = (cc.get("YAMUXTIMEOUTMS"), cc.get("YAMUXWINDOW"))
+        if pair == (300000, 6291456) and cc.get("YAMUXSAFERATE") == 20972 and cc.get("SLOWWITNESS") == 1:
+            c.failures.append(dict(key=F01C, driver="drain",
+                                   what="translated yamux configuration (StreamCloseTimeout %d ms, window %d B): the model-level witness "
+                                        "C01_close_drain_slow_receiver_refuted applies (8 KB/s receiver, 4 MiB written and closed: 2 457 600 "
+                                        "delivered); every drain rate below %d B/s truncates" % (pair[0], pair[1], cc.get("YAMUXSAFERATE")),
+                                   case="drain_delivered yamux_default_close_timeout_ms 8192 4194304 = 2457600 < 4194304; replay: work/h_c01 slowdrain -extra \"8KB,4194304,0,up\""))
+        elif cc.get("YAMUXSAFERATE", 0) > 0:
+            c.failures.append(dict(key="tunnel-close:yamux-truncates-below-%s-Bps(timeout=%s,window=%s)" % (cc.get("YAMUXSAFERATE"), pair[0], pair[1]),
+                                   driver="drain", what="the translated yamux configuration truncates write-then-close transfers for receivers draining below %s B/s "
+                                   "(recorded: 20972 B/s for timeout 300000 ms / window 6291456 B)" % cc.get("YAMUXSAFERATE"),
+                                   case="StreamCloseTimeout %s ms, MaxStreamWindowSize %s B" % pair))
+    if c.tier == "thorough":
+        # the real 5-minute replay of F-C01c
+        st = c.run_driver("slowdrain", 0, coq=False, timeout=600, extra="8KB,4194304,0,up")
+        if st:
+            obs = st.get("observed_findings") or []
+            for f in obs:
+                c.failures.append(dict(f, driver="slowdrain"))
+            if not obs:
+                c.notes.append("slowdrain replay of %s did not truncate on this run: %s" % (F01C, st.get("samples")))
     # timing observations (close seen within the bound, configuration up within 8 s) are runtime residue: a failure of
     # that kind (or any failure confined to kcp configurations: UDP on a loaded loopback) is re-run on the same seed and reported only if it reproduces every time (DESIGN section 3)
     timing = ("mismatch:tunnel:code27", "tunnel-setup:")
